@@ -377,6 +377,39 @@ func schedOp(w *schedWorld, name string) func() string {
 			ks, vs = append(ks, k), append(vs, v)
 		}
 		return pairs(ks, vs)
+	case "ArgsCloneMutate":
+		// writing to a clone is legitimate and must leave the token alone
+		if !isInv {
+			return dash
+		}
+		c := inv.Arguments().WriteableClone()
+		err := c.Add("zz-added-by-clone-owner", "x")
+		for k := range c.Values {
+			c.Values[k] = nil
+			break
+		}
+		if len(c.Keys) > 1 {
+			c.Keys[0], c.Keys[len(c.Keys)-1] = c.Keys[len(c.Keys)-1], c.Keys[0]
+		}
+		return func() string { return errStr(err) }
+	case "MetaCloneMutate":
+		c := metaOf(tk).WriteableClone()
+		err := c.Add("zz-added-by-clone-owner", "x")
+		for k := range c.Values {
+			c.Values[k] = nil
+			break
+		}
+		if len(c.Keys) > 1 {
+			c.Keys[0], c.Keys[len(c.Keys)-1] = c.Keys[len(c.Keys)-1], c.Keys[0]
+		}
+		return func() string { return errStr(err) }
+	case "ExecutionAllowedHookAdd":
+		err := w.inv.ExecutionAllowedWithArgsHook(w.store, func(ro args.ReadOnly) (*args.Args, error) {
+			c := ro.WriteableClone()
+			_ = c.Add("zz-added-by-hook", 1)
+			return c, nil
+		})
+		return func() string { return errStr(err) }
 	case "MetaIter":
 		var ks []string
 		var vs []datamodel.Node
@@ -781,9 +814,9 @@ func genSched(r *Rand, g GenCfg) Plan {
 		targets = append(targets, fmt.Sprintf("dlg%d", i))
 	}
 	invOps := []string{"ExecutionAllowed", "ExecutionAllowed", "ExecutionAllowedHook", "ToSealed", "ToSealedWriter", "ToDagCbor", "ToDagJson", "Encode", "Accessors", "IsValid",
-		"ArgsIter", "ArgsString", "ArgsToIPLD", "ArgsGetNode", "ArgsEquals", "ArgsClone", "MetaIter", "MetaString", "MetaGet", "MetaGetEncrypted", "MetaEquals", "MetaClone",
+		"ArgsIter", "ArgsString", "ArgsToIPLD", "ArgsGetNode", "ArgsEquals", "ArgsClone", "ArgsCloneMutate", "MetaCloneMutate", "ExecutionAllowedHookAdd", "MetaIter", "MetaString", "MetaGet", "MetaGetEncrypted", "MetaEquals", "MetaClone",
 		"StoreGet", "StoreIter", "ContainerWrite"}
-	dlgOps := []string{"ToSealed", "ToSealedWriter", "ToDagJson", "Encode", "Accessors", "IsValid", "MetaIter", "MetaString", "MetaGet", "MetaEquals", "MetaClone", "PolicyString", "PolicyMatch", "StoreGet"}
+	dlgOps := []string{"ToSealed", "ToSealedWriter", "ToDagJson", "Encode", "Accessors", "IsValid", "MetaIter", "MetaString", "MetaGet", "MetaEquals", "MetaClone", "MetaCloneMutate", "PolicyString", "PolicyMatch", "StoreGet"}
 	k := r.Range(2, 4)
 	p.Ops = make([][]string, k)
 	for g := 0; g < k; g++ {
